@@ -18,6 +18,9 @@ import datetime
 import enum
 import io
 import json
+import os
+import shutil
+import tempfile
 import random
 import re
 from concurrent.futures import ProcessPoolExecutor, ThreadPoolExecutor
@@ -182,15 +185,86 @@ def upload_attrs(i):
     return (f"f{j}.txt", f"content-{j}-\r\n--x".encode(), "text/plain" if j % 2 == 0 else "application/octet-stream")
 
 
-def build_py(vs, rng=None):
+STREAM_KINDS = ["bytesio", "file", "nonseek"]
+POSITIONS = ["start", "mid", "end"]
+
+
+def pos_of(name, n):
+    return {"start": 0, "mid": n // 2, "end": n}[name]
+
+
+class NonSeekable(io.RawIOBase):
+    """A readable stream without random access (a socket / pipe like source)."""
+
+    def __init__(self, data, pos):
+        super().__init__()
+        self._data, self.pos = data, pos
+
+    def readable(self):
+        return True
+
+    def seekable(self):
+        return False
+
+    def readinto(self, b):
+        chunk = self._data[self.pos:self.pos + len(b)]
+        b[:len(chunk)] = chunk
+        self.pos += len(chunk)
+        return len(chunk)
+
+
+class UploadStore:
+    """The Upload objects of one call (main phase) or of one whole history (re-sent objects)."""
+
+    def __init__(self, tmpdir):
+        self.tmpdir, self.ups, self.kind, self.streams = tmpdir, {}, {}, {}
+
+    def get(self, i, cfg):
+        if i not in self.ups:
+            bm = _clients.dep_module("base_model")
+            fn, content, ct = upload_attrs(i)
+            kind, posname = cfg[i] if cfg else ("bytesio", "start")
+            pos = pos_of(posname, len(content))
+            if kind == "bytesio":
+                st = io.BytesIO(content)
+                st.seek(pos)
+            elif kind == "file":
+                path = os.path.join(self.tmpdir, f"u{id(self)}_{i}.bin")
+                with open(path, "wb") as fh:
+                    fh.write(content)
+                st = open(path, "rb")
+                st.seek(pos)
+            else:
+                st = NonSeekable(content, pos)
+            self.ups[i], self.kind[i], self.streams[i] = bm.Upload(filename=fn, content=st, content_type=ct), kind, st
+        return self.ups[i]
+
+    def state(self):
+        return {i: (self.kind[i], st.pos if self.kind[i] == "nonseek" else st.tell()) for i, st in self.streams.items()}
+
+    def close(self):
+        for st in self.streams.values():
+            try:
+                st.close()
+            except Exception:  # noqa: BLE001
+                pass
+
+
+def oracle_bytes(i, state):
+    """Which bytes are "the file": the whole content of a seekable stream (wherever it stands when execute is
+    called); a stream without random access can only give what is left from its position."""
+    content = upload_attrs(i)[1]
+    kind, pos = state[i]
+    return content if kind != "nonseek" else content[pos:]
+
+
+def build_py(vs, store=None, upcfg=None):
     bm = _clients.dep_module("base_model")
-    ups = {}
+    if store is None:
+        store = UploadStore(tempfile.gettempdir())
 
     def up(i):
-        if i not in ups:
-            fn, content, ct = upload_attrs(i)
-            ups[i] = bm.Upload(filename=fn, content=io.BytesIO(content), content_type=ct)
-        return ups[i]
+        return store.get(i, upcfg)
 
     def go(n):
         t = n[0]
@@ -280,14 +354,19 @@ HEADERS = [
     ("absent", None), ("empty", {}), ("custom", {"X-A": "1"}), ("two", {"Authorization": "Bearer b", "x-trace": "t"}),
     ("ct-exact", {"Content-Type": "application/graphql+json"}),
     ("ct-lower", {"content-type": "text/plain"}), ("ct-upper", {"CONTENT-TYPE": "text/plain", "X-A": "2"}),
+    ("auth-lower", {"authorization": "call-token", "X-Call": "k"}),
 ]
+# headers configured on the client object itself (its httpx client): must survive unless THIS call overrides them
+CLIENT_HEADERS = {"Authorization": "client-token", "X-Client": "c1"}
+HTTPX_OWN = {"host", "accept", "accept-encoding", "connection", "user-agent", "content-length", "transfer-encoding"}
 QUERIES = ["query Q { x }", "mutation M($f: Upload!) { up(f: $f) }", "query U { s(a: \"zażółć\") }", ""]
 
 
 class Call:
-    def __init__(self, idx, stream, vs, hname, headers, timeout, query, opname):
+    def __init__(self, idx, stream, vs, hname, headers, timeout, query, opname, upcfg=None):
         self.idx, self.stream, self.vs, self.hname, self.headers = idx, stream, vs, hname, headers
         self.timeout, self.query, self.opname = timeout, query, opname
+        self.upcfg = upcfg or {i: ("bytesio", "start") for i in range(N_UPLOADS)}
 
     def cmd(self):
         h = Sym("none") if self.headers is None else [Sym("some"), [[k, v] for k, v in self.headers.items()]]
@@ -305,7 +384,8 @@ class Call:
 
     def replay(self):
         return {"stream": self.stream, "variables_tree": self.vs, "headers": self.headers, "timeout": self.timeout,
-                "query": self.query, "operation_name": self.opname}
+                "query": self.query, "operation_name": self.opname,
+                "upload_streams": {str(i): list(v) for i, v in self.upcfg.items()}}
 
 
 def gen_calls(ctx):
@@ -323,10 +403,24 @@ def gen_calls(ctx):
                              ("type_", "type", False, ("leaf", "none", None)), ("sub_items", "subItems", True, ("dict", [("k", ("up", 0))]))]))],
         [("a", ("unset",)), ("b", ("unset",))],
         [("d", ("dict", [("0", ("up", 1)), ("1", ("list", [("up", 1)]))]))],
+        # regression witness of the fixed finding C11-model-under-dict (/repo dd85cf5)
+        [("w", ("dict", [("m", ("model", 1, [("file", None, True, ("up", 0)), ("files", None, False, ("leaf", "none", None)),
+                                             ("type_", "type", False, ("leaf", "none", None)),
+                                             ("sub_items", "subItems", False, ("leaf", "none", None))]))]))],
     ]
+    def rnd_cfg():
+        return {i: (rng.choice(STREAM_KINDS), rng.choice(POSITIONS)) for i in range(N_UPLOADS)}
+
     for vs in fixed:
         for hname, h in HEADERS:
             calls.append(Call(len(calls), "main", vs, hname, h, None, QUERIES[0], "Q"))
+    # every stream kind x position, one and two uploads
+    for kind in STREAM_KINDS:
+        for posname in POSITIONS:
+            cfg = {i: (kind, posname) for i in range(N_UPLOADS)}
+            calls.append(Call(len(calls), "main", [("f", ("up", 2))], "absent", None, None, QUERIES[1], "M", cfg))
+            calls.append(Call(len(calls), "main", [("f", ("up", 2)), ("g", ("list", [("up", 3), ("up", 2)]))], "custom",
+                              {"X-A": "1"}, None, QUERIES[1], "M", cfg))
     for stream, n in plan:
         for _ in range(n):
             vs = g.variables(stream)
@@ -334,7 +428,7 @@ def gen_calls(ctx):
                 vs = None
             hname, h = rng.choice(HEADERS)
             calls.append(Call(len(calls), stream, vs, hname, h, rng.choice([None, None, 3, 7]),
-                              rng.choice(QUERIES), rng.choice(["Q", "Op", None, "zażółć"])))
+                              rng.choice(QUERIES), rng.choice(["Q", "Op", None, "zażółć"]), rnd_cfg()))
     return calls
 
 
@@ -415,108 +509,205 @@ def client_attrs(client):
     return {k: id(v) for k, v in vars(client).items()}
 
 
+def _respond(request):
+    import httpx
+
+    return httpx.Response(200, json={"data": {"echo": True}})
+
+
+def _one_sync(client, c, captured, store):
+    captured.clear()
+    try:
+        variables = build_py(c.vs, store, c.upcfg)
+        st = store.state()
+    except Exception as e:  # noqa: BLE001
+        return ("raised", "harness:" + type(e).__name__, None, {})
+    try:
+        resp = client.execute(c.query, operation_name=c.opname, variables=variables, **c.kwargs())
+        return ("sent", captured.get("req"), canon(client.get_data(resp)), st)
+    except Exception as e:  # noqa: BLE001
+        return ("raised", type(e).__name__, captured.get("req"), st)
+
+
+async def _one_async(client, c, captured, store):
+    captured.clear()
+    variables = build_py(c.vs, store, c.upcfg)
+    st = store.state()
+    try:
+        resp = await client.execute(c.query, operation_name=c.opname, variables=variables, **c.kwargs())
+        return ("sent", captured.get("req"), canon(client.get_data(resp)), st)
+    except Exception as e:  # noqa: BLE001
+        return ("raised", type(e).__name__, captured.get("req"), st)
+
+
 def _run_variant(args):
-    """All calls, one at a time, on ONE client of the variant; then concurrent batches on the same client."""
+    """All calls, one after the other, on ONE client object of the variant (one long history), then concurrent
+    batches on another client; module-level state and client attributes snapshotted before/after."""
     vi, calls, conc_batches, seed = args
     import httpx
 
     v = _clients.variants()[vi]
     captured = {}
-
-    def respond(request):
-        return httpx.Response(200, json={"data": {"echo": True}})
-
+    tmp = tempfile.mkdtemp(prefix="c11u_")
+    mod_before = _clients.module_state()
     results = []
-    if v.is_async:
-        async def go():
-            async def handler(request):
+    try:
+        if v.is_async:
+            async def go():
+                async def handler(request):
+                    captured["req"] = capture(request)
+                    return _respond(request)
+                client = v.make(httpx.MockTransport(handler), client_headers=CLIENT_HEADERS)
+                before = client_attrs(client)
+                for c in calls:
+                    store = UploadStore(tmp)
+                    results.append(await _one_async(client, c, captured, store))
+                    store.close()
+                same = client_attrs(client) == before
+                conc = []
+                rng = random.Random(seed)
+                for batch in conc_batches:
+                    got = {}
+
+                    async def chandler(request):
+                        await asyncio.sleep(rng.random() * 0.002)
+                        got[_opname_of(request)] = capture(request)
+                        await asyncio.sleep(rng.random() * 0.002)
+                        return _respond(request)
+                    cclient = v.make(httpx.MockTransport(chandler), client_headers=CLIENT_HEADERS)
+                    cb = client_attrs(cclient)
+
+                    async def one(k, c):
+                        await asyncio.sleep(rng.random() * 0.001)
+                        resp = await cclient.execute(c.query, operation_name=c.opname,
+                                                     variables=build_py(c.vs, UploadStore(tmp), c.upcfg), **c.kwargs())
+                        return canon(cclient.get_data(resp))
+                    outs = await asyncio.gather(*[one(k, c) for k, c in enumerate(batch)], return_exceptions=True)
+                    conc.append((got, [o if not isinstance(o, Exception) else ("raised", type(o).__name__) for o in outs],
+                                 client_attrs(cclient) == cb))
+                    await cclient.http_client.aclose()
+                await client.http_client.aclose()
+                return same, conc
+            same, conc = _clients.run_coro(go())
+        else:
+            def handler(request):
                 captured["req"] = capture(request)
-                return respond(request)
-            client = v.make(httpx.MockTransport(handler))
+                return _respond(request)
+            client = v.make(httpx.MockTransport(handler), client_headers=CLIENT_HEADERS)
             before = client_attrs(client)
             for c in calls:
-                captured.clear()
-                try:
-                    resp = await client.execute(c.query, operation_name=c.opname, variables=build_py(c.vs), **c.kwargs())
-                    data = client.get_data(resp)
-                    results.append(("sent", captured.get("req"), canon(data)))
-                except Exception as e:  # noqa: BLE001
-                    results.append(("raised", type(e).__name__, captured.get("req")))
+                store = UploadStore(tmp)
+                results.append(_one_sync(client, c, captured, store))
+                store.close()
             same = client_attrs(client) == before
-            # concurrent batches
             conc = []
+            import threading
+            import time
             rng = random.Random(seed)
             for batch in conc_batches:
                 got = {}
+                lock = threading.Lock()
 
-                async def chandler(request):
-                    await asyncio.sleep(rng.random() * 0.002)
-                    got[_opname_of(request)] = capture(request)
-                    await asyncio.sleep(rng.random() * 0.002)
-                    return respond(request)
-                cclient = v.make(httpx.MockTransport(chandler))
+                def chandler(request):
+                    time.sleep(rng.random() * 0.002)
+                    o = capture(request)
+                    with lock:
+                        got[_opname_of(request)] = o
+                    return _respond(request)
+                cclient = v.make(httpx.MockTransport(chandler), client_headers=CLIENT_HEADERS)
                 cb = client_attrs(cclient)
 
-                async def one(k, c):
-                    await asyncio.sleep(rng.random() * 0.001)
-                    resp = await cclient.execute(c.query, operation_name=c.opname, variables=build_py(c.vs), **c.kwargs())
-                    return canon(cclient.get_data(resp))
-                outs = await asyncio.gather(*[one(k, c) for k, c in enumerate(batch)], return_exceptions=True)
-                conc.append((got, [o if not isinstance(o, Exception) else ("raised", type(o).__name__) for o in outs],
-                             client_attrs(cclient) == cb))
-                await cclient.http_client.aclose()
-            await client.http_client.aclose()
-            return same, conc
-        same, conc = _clients.run_coro(go())
-    else:
-        def handler(request):
-            captured["req"] = capture(request)
-            return respond(request)
-        client = v.make(httpx.MockTransport(handler))
-        before = client_attrs(client)
-        for c in calls:
-            captured.clear()
-            try:
-                resp = client.execute(c.query, operation_name=c.opname, variables=build_py(c.vs), **c.kwargs())
-                data = client.get_data(resp)
-                results.append(("sent", captured.get("req"), canon(data)))
-            except Exception as e:  # noqa: BLE001
-                results.append(("raised", type(e).__name__, captured.get("req")))
-        same = client_attrs(client) == before
-        conc = []
-        import threading
-        import time
-        rng = random.Random(seed)
-        for batch in conc_batches:
-            got = {}
-            lock = threading.Lock()
+                def one(kc):
+                    k, c = kc
+                    try:
+                        resp = cclient.execute(c.query, operation_name=c.opname,
+                                               variables=build_py(c.vs, UploadStore(tmp), c.upcfg), **c.kwargs())
+                        return canon(cclient.get_data(resp))
+                    except Exception as e:  # noqa: BLE001
+                        return ("raised", type(e).__name__)
+                with ThreadPoolExecutor(max_workers=8) as ex:
+                    outs = list(ex.map(one, list(enumerate(batch))))
+                conc.append((got, outs, client_attrs(cclient) == cb))
+                cclient.http_client.close()
+            client.http_client.close()
+    finally:
+        shutil.rmtree(tmp, ignore_errors=True)
+    return v.name, results, same, conc, _clients.state_diff(mod_before, _clients.module_state())
 
-            def chandler(request):
-                time.sleep(rng.random() * 0.002)
-                o = capture(request)
-                with lock:
-                    got[_opname_of(request)] = o
-                return respond(request)
-            cclient = v.make(httpx.MockTransport(chandler))
-            cb = client_attrs(cclient)
 
-            def one(kc):
-                k, c = kc
-                try:
-                    resp = cclient.execute(c.query, operation_name=c.opname, variables=build_py(c.vs), **c.kwargs())
-                    return canon(cclient.get_data(resp))
-                except Exception as e:  # noqa: BLE001
-                    return ("raised", type(e).__name__)
-            with ThreadPoolExecutor(max_workers=8) as ex:
-                outs = list(ex.map(one, list(enumerate(batch))))
-            conc.append((got, outs, client_attrs(cclient) == cb))
-            cclient.http_client.close()
-        client.http_client.close()
-    return v.name, results, same, conc
+def _run_histories(args):
+    """Histories of 2-5 calls in ONE interpreter over a pool of client objects: two objects of each of the six
+    variants (slot 2k: httpx client with its own headers, slot 2k+1: without).  The Upload objects live for the
+    whole history (the same Upload is re-sent, possibly through another client object)."""
+    histories, seed = args
+    import httpx
+
+    variants = _clients.variants()
+    tmp = tempfile.mkdtemp(prefix="c11h_")
+    mod_before = _clients.module_state()
+    out = []
+
+    async def go():
+        pool = []
+        for v in variants:
+            for ch in (CLIENT_HEADERS, None):
+                cap = {}
+                if v.is_async:
+                    async def handler(request, cap=cap):
+                        cap["req"] = capture(request)
+                        return _respond(request)
+                else:
+                    def handler(request, cap=cap):
+                        cap["req"] = capture(request)
+                        return _respond(request)
+                client = v.make(httpx.MockTransport(handler), client_headers=ch)
+                pool.append((v, client, cap, client_attrs(client)))
+        for h in histories:
+            store = UploadStore(tmp)
+            steps = []
+            for slot, c in h:
+                v, client, cap, _ = pool[slot]
+                if v.is_async:
+                    steps.append(await _one_async(client, c, cap, store))
+                else:
+                    steps.append(_one_sync(client, c, cap, store))
+            store.close()
+            out.append(steps)
+        same = [client_attrs(client) == before for _, client, _, before in pool]
+        for v, client, _, _ in pool:
+            if v.is_async:
+                await client.http_client.aclose()
+            else:
+                client.http_client.close()
+        return same
+
+    try:
+        same = _clients.run_coro(go())
+    finally:
+        shutil.rmtree(tmp, ignore_errors=True)
+    return out, same, _clients.state_diff(mod_before, _clients.module_state())
+
+
+def expected_wire_headers(merged, client_headers):
+    """non-httpx headers that must be on the wire: this call's merged headers plus the client object's own
+    headers it does not override (names case-insensitive)."""
+    names = {k.lower() for k, _ in merged}
+    return sorted([(k.lower(), v) for k, v in merged] +
+                  [(k.lower(), v) for k, v in (client_headers or {}).items() if k.lower() not in names])
+
+
+def wire_nonown(o, drop_multipart_ct):
+    w = [(k, v) for k, v in o["headers"] if k not in HTTPX_OWN]
+    if drop_multipart_ct:
+        w = [(k, v) for k, v in w if not (k == "content-type" and v.startswith("multipart/form-data; boundary="))]
+    return sorted(w)
 
 
 # ------------------------------------------------------------------ model request -> expectations
-def check_against_model(c: Call, m, obs):
+MODEL_BYTES = {}
+
+
+def check_against_model(c: Call, m, obs, client_headers=None):
     """K1: list of differences between the model's request and the observation (empty = agree)."""
     req = m[0]
     kind = req[0]
@@ -541,6 +732,9 @@ def check_against_model(c: Call, m, obs):
         got = [(k, v) for k, v in wire if k in names]
         if got != mh:
             diffs.append(f"headers on the wire {got} != model {mh}")
+        if wire_nonown(o, False) != expected_wire_headers(req[2], client_headers):
+            diffs.append(f"all non-httpx headers on the wire {wire_nonown(o, False)} != model (this call alone) "
+                         f"{expected_wire_headers(req[2], client_headers)}")
         if o["kind"] != "json":
             diffs.append("impl sent multipart, model JSON")
         elif o["body"] != canon(sx_json(req[4])):
@@ -551,6 +745,10 @@ def check_against_model(c: Call, m, obs):
         got = [(k, v) for k, v in wire if k in names]
         if got != mh:
             diffs.append(f"caller headers on the wire {got} != model {mh}")
+        mh_pairs = [] if req[2] == "none" else req[2][1]
+        if wire_nonown(o, "content-type" not in names) != expected_wire_headers(mh_pairs, client_headers):
+            diffs.append(f"all non-httpx headers on the wire {wire_nonown(o, 'content-type' not in names)} != model "
+                         f"(this call alone) {expected_wire_headers(mh_pairs, client_headers)}")
         if "content-type" not in names:
             if len(o["content_type"]) != 1 or not o["content_type"][0].startswith("multipart/form-data; boundary=") \
                     or not o["boundary_in_header"]:
@@ -561,15 +759,17 @@ def check_against_model(c: Call, m, obs):
             parts = o["parts"]
             files = req[6]
             want = [("operations", None, None, canon(sx_json(req[4]))), ("map", None, None, canon(sx_json(req[5])))]
+            state = obs[3]
             for name, uid in files:
                 fn, content, ct = upload_attrs(int(uid))
-                want.append((name, fn, ct, content))
+                kind, pos = state.get(int(uid), ("bytesio", 0))
+                want.append((name, fn, ct, MODEL_BYTES[(content, pos, kind != "nonseek")]))
             if parts != want:
                 diffs.append(f"parts {parts} != model {want}")
     return diffs
 
 
-def k3_property(c: Call, obs):
+def k3_property(c: Call, obs, client_headers=None):
     """The property text on the captured request.  Returns (problems, finding_class or None)."""
     problems, cls = [], None
     if obs[0] != "sent" or obs[1] is None:
@@ -606,6 +806,10 @@ def k3_property(c: Call, obs):
         for k, v in hdr.items():
             if k.lower() != "content-type" and dict_get_all(o["headers"], k.lower()) != [v]:
                 problems.append(f"caller header {k} does not win: {dict_get_all(o['headers'], k.lower())}")
+        merged = ([] if caller_ct else [("content-type", "application/json")]) + list(hdr.items())
+        if not problems and wire_nonown(o, False) != expected_wire_headers(merged, client_headers):
+            problems.append(f"headers on the wire {wire_nonown(o, False)} are not this call's headers + the client's own "
+                            f"{expected_wire_headers(merged, client_headers)} (something from elsewhere was sent, or lost)")
     else:
         if o["kind"] != "multipart":
             problems.append("uploads present but the request is not multipart")
@@ -643,11 +847,19 @@ def k3_property(c: Call, obs):
             problems.append(f"{len(file_parts)} file parts for {len(by_id)} distinct uploads")
         for name, fn, pct, content in file_parts:
             ids = {i for p, i in ups if p in by_key.get(name, ())}
-            if len(ids) != 1 or (fn, content, pct) != upload_attrs(next(iter(ids))):
-                problems.append(f"file part {name} does not carry its upload: {fn} {pct} {content!r}")
+            if len(ids) != 1 or (fn, pct) != (upload_attrs(next(iter(ids)))[0], upload_attrs(next(iter(ids)))[2]):
+                problems.append(f"file part {name} does not carry its upload: {fn} {pct}")
+            elif content != oracle_bytes(next(iter(ids)), obs[3]):
+                i0 = next(iter(ids))
+                problems.append(f"file part {name} carries {content!r}, the file is {oracle_bytes(i0, obs[3])!r} "
+                                f"(stream {obs[3][i0][0]} at offset {obs[3][i0][1]} when execute was called)")
         for k, v in hdr.items():
             if k.lower() != "content-type" and dict_get_all(o["headers"], k.lower()) != [v]:
                 problems.append(f"caller header {k} does not win")
+        has_ct = any(k.lower() == "content-type" for k in hdr)
+        if not problems and wire_nonown(o, not has_ct) != expected_wire_headers(list(hdr.items()), client_headers):
+            problems.append(f"headers on the wire {wire_nonown(o, not has_ct)} are not this call's headers + the client's own "
+                            f"{expected_wire_headers(list(hdr.items()), client_headers)}")
     return problems, cls
 
 
@@ -677,13 +889,21 @@ def run(ctx):
     run = ctx.run
     run.rule = ("seeded variables trees (dicts, lists, pydantic models on the bundled BaseModel with aliases and unset "
                 "fields, UNSET, None, Upload at any depth, Uploads referenced twice, two Uploads with equal attributes, "
-                "enum/date/datetime leaves) x headers (absent/empty/custom/Content-Type exact and other case) x timeout x "
-                "query/operationName, each through execute of 6 client variants captured at httpx.MockTransport; plus "
-                "concurrent batches; non-trivial = tree with a container or an upload; distinct by (tree, headers)")
+                "enum/date/datetime leaves) x upload streams (BytesIO / real file / non-seekable, positioned at start / "
+                "middle / end before the call) x per-call headers (absent/empty/custom/Content-Type in 3 cases/"
+                "authorization overriding the client object's own) x timeout x query/operationName, through execute of 6 "
+                "client variants captured at httpx.MockTransport: (1) every call on one long-lived client object per "
+                "variant (one long history), (2) histories of 2-5 calls over a pool of 12 client objects in one "
+                "interpreter with Upload objects living for the whole history (re-sent, through other client objects "
+                "too), (3) concurrent batches; every captured request is compared with the stateless model's prediction "
+                "for that call alone (all non-httpx wire headers, body, parts byte for byte); module-level state "
+                "(globals, class attributes, function defaults of the six dependency modules) and vars(client) "
+                "snapshotted before/after; non-trivial = tree with a container or an upload; distinct by (tree, headers)")
     run.assumptions += [
         "httpx 0.28 request construction, header merging/lower-casing and multipart encoding; requests_toolbelt decoder",
         "pydantic model_dump(by_alias, exclude_unset) / to_jsonable_python as modelled by dumpv/to_json (re-measured by K1 on every model case)",
         "interleavings inside httpx / the event loop are not modelled: concurrent runs are compared with solo runs",
+        "httpx multipart FileField rewinds seekable streams (modelled as sent_bytes; re-measured on every upload part)",
     ]
     variants = _clients.variants()
     run.extra["clients"] = [v.name for v in variants]
@@ -701,25 +921,98 @@ def run(ctx):
             calls.append(cc)
             batch.append(cc)
         batches.append(batch)
+    # histories: 2-5 calls over a pool of 12 client objects (2 per variant) in one interpreter; the Upload objects
+    # live for the whole history.  Every step is also a call of its own (run solo in the main phase, model-predicted).
+    nh = 400 if ctx.thorough else 70
+    n_slots = 2 * len(variants)
+    histories = []
+    for hi in range(nh):
+        steps = []
+        n = rng.randint(2, 5)
+        shape = rng.choice(["mixed", "mixed", "same-client", "resend"])
+        slot0 = rng.randrange(n_slots)
+        base = rng.choice(mains)
+        cfg = {i: (rng.choice(STREAM_KINDS), rng.choice(POSITIONS)) for i in range(N_UPLOADS)}
+        for k in range(n):
+            src = base if (shape == "resend" and rng.random() < 0.7) else rng.choice(mains)
+            hname, h = rng.choice(HEADERS)
+            cc = Call(len(calls), "hist", src.vs, hname, h, rng.choice([None, 3, 7]), src.query, src.opname, cfg)
+            calls.append(cc)
+            steps.append((slot0 if shape == "same-client" else rng.randrange(n_slots), cc))
+        histories.append(steps)
     mres = model.batch("C11", [c.cmd() for c in calls])
     for c, m in zip(calls, mres):
         if model.is_error(m):
             run.broken("model", f"{m!r} on {c.replay()}")
             return
-    with ProcessPoolExecutor(max_workers=len(variants)) as ex:
+    # the model's answer to "which bytes are sent" for every (content, position, seekable) that can occur
+    combos = []
+    for i in range(N_UPLOADS):
+        content = upload_attrs(i)[1]
+        for pos in sorted({0, len(content) // 2, len(content)}):
+            for seekable in (True, False):
+                combos.append((content, pos, seekable))
+    combos = sorted(set(combos))
+    for (content, pos, seekable), r in zip(combos, model.batch("C11", [[Sym("sent_bytes"), content.decode(), pos, seekable]
+                                                                      for content, pos, seekable in combos])):
+        if model.is_error(r):
+            run.broken("model sent_bytes", repr(r))
+            return
+        MODEL_BYTES[(content, pos, seekable)] = r[0].encode()
+    with ProcessPoolExecutor(max_workers=len(variants) + 1) as ex:
+        hfut = ex.submit(_run_histories, (histories, ctx.seed))
         res = list(ex.map(_run_variant, [(i, calls, batches, ctx.seed + i) for i in range(len(variants))]))
+        hres, hsame, hmod = hfut.result()
     k1, k3 = [], []
     ref_name, ref_results = res[0][0], res[0][1]
-    for vname, results, same, conc in res:
+    # ---- histories: every step against the stateless model's prediction for that call alone + the property
+    if hmod:
+        k3.append((0, "histories", calls[0], [f"module-level state changed by calls: {hmod[:6]}"], None))
+    for slot, ok in enumerate(hsame):
+        if not ok:
+            k3.append((0, variants[slot // 2].name, calls[0], ["client attributes changed by execute (history phase)"], None))
+    for hi, (h, steps) in enumerate(zip(histories, hres)):
+        for k, ((slot, c), obs) in enumerate(zip(h, steps)):
+            run.count()
+            vname = f"{variants[slot // 2].name}#{slot % 2}"
+            ch = CLIENT_HEADERS if slot % 2 == 0 else None
+            m = mres[c.idx]
+            where = f"history {hi} step {k + 1}/{len(h)} on client object {vname}"
+            hist_rep = [{"client_object": f"{variants[s0 // 2].name}#{s0 % 2}", "call": c0.replay()} for s0, c0 in h[:k + 1]]
+            d = check_against_model(c, m, obs, ch)
+            if d:
+                k1.append((tree_size(c.vs) + 100 * k, vname, c, [f"{where}: " + d[0]] + d[1:], hist_rep))
+            probs, cls = k3_property(c, obs, ch)
+            if probs:
+                k3.append((tree_size(c.vs) + 100 * k, vname, c, [f"{where}: " + probs[0]] + probs[1:], cls, hist_rep))
+            run.dist("history_step", str(k + 1))
+    run.extra["histories"] = len(histories)
+    prev_calls = {}
+    # the clients agree: for every call the requests/outcomes of all variants are grouped; more than one group fails
+    full = [r for r in res if len(r[1]) == len(calls)]
+    for c in calls:
+        groups = {}
+        for vname, results, *_ in full:
+            obs = results[c.idx]
+            key = repr((obs[0], strip_volatile(obs[1]) if obs[0] == "sent" and obs[1] else obs[1],
+                        obs[2] if obs[0] == "sent" else None))
+            groups.setdefault(key, []).append(vname)
+        if len(groups) > 1:
+            gs = sorted(groups.values(), key=len)
+            k3.append((tree_size(c.vs), gs[0][0], c,
+                       [f"the clients do not emit identical requests/outcomes for this call: {' vs '.join('+'.join(g) for g in gs)}"], None))
+    for vname, results, same, conc, moddiff in res:
         if len(results) != len(calls):
             run.broken("impl run", f"{vname}: {len(results)} of {len(calls)}")
             continue
         if not same:
             k3.append((0, vname, calls[0], ["client attributes changed by execute"], None))
+        if moddiff:
+            k3.append((0, vname, calls[0], [f"module-level state changed by calls: {moddiff[:6]}"], None))
         for c, m, obs in zip(calls, mres, results):
             run.count()
             guard_ok, f_dict, f_ct, rt = m[1] == "t", m[2] == "t", m[3] == "t", m[4] == "t"
-            d = check_against_model(c, m, obs)
+            d = check_against_model(c, m, obs, CLIENT_HEADERS)
             if d:
                 k1.append((tree_size(c.vs), vname, c, d))
             if not rt and guard_ok:
@@ -729,18 +1022,13 @@ def run(ctx):
                 if obs[0] == "sent" and obs[1] is not None and "unset" in json.dumps(obs[1], default=str).lower():
                     k3.append((tree_size(c.vs), vname, c, ["UNSET reached the wire"], None))
                 continue
-            probs, cls = k3_property(c, obs)
+            probs, cls = k3_property(c, obs, CLIENT_HEADERS)
             if f_dict and probs and cls is None and probs[0].startswith("no request sent"):
                 cls = "C11-model-under-dict"
             if probs:
                 k3.append((tree_size(c.vs), vname, c, probs, cls))
-            # clients agree
-            if vname != ref_name:
-                ro = ref_results[c.idx]
-                a = (obs[0], strip_volatile(obs[1]) if obs[0] == "sent" and obs[1] else obs[1], obs[2] if obs[0] == "sent" else None)
-                b = (ro[0], strip_volatile(ro[1]) if ro[0] == "sent" and ro[1] else ro[1], ro[2] if ro[0] == "sent" else None)
-                if a != b:
-                    k3.append((tree_size(c.vs), vname, c, [f"request/outcome differs from client {ref_name}"], None))
+            if probs or d:
+                prev_calls[(vname, c.idx)] = [x.replay() for x in calls[max(0, c.idx - 4):c.idx]]
         # concurrent vs solo
         for batch, (got, outs, csame) in zip(batches, conc):
             run.count(len(batch))
@@ -765,6 +1053,8 @@ def run(ctx):
         fs = features(c.vs)
         for f in fs:
             run.dist("features", f)
+        for i in {i for _, i in input_upload_paths(c.vs)}:
+            run.dist("upload_stream", f"{c.upcfg[i][0]}@{c.upcfg[i][1]}")
         if fs & {"list", "dict", "model", "up"}:
             run.nontrivial_case((json.dumps(c.vs, default=str), c.hname))
     run.extra["calls"] = len(calls)
@@ -776,18 +1066,25 @@ def run(ctx):
     # ---- decide ----
     k3.sort(key=lambda t: (t[0], t[1]))
     reported = set()
-    for size, vname, c, probs, cls in k3:
+    for item in k3:
+        size, vname, c, probs, cls = item[:5]
         rep = dict(c.replay(), client=vname, problems=probs)
-        if cls:
+        if len(item) > 5:
+            rep["history"] = item[5]
+        elif (vname, c.idx) in prev_calls:
+            rep["note"] = ("main phase: all calls run one after the other on ONE client object per variant; the calls that "
+                           "immediately preceded this one on that object are listed (a failure may depend on them)")
+            rep["preceding_calls_on_the_same_client_object"] = prev_calls[(vname, c.idx)]
+        if cls and cls in run.open_classes:
             run.finding(cls, f"{vname}: {probs[0]}", rep)
             continue
-        key = probs[0][:60]
+        key = (cls or "") + probs[0][:60]
         if key in reported or len(reported) >= 6:
             continue
         reported.add(key)
-        run.violation(f"{vname}: {probs[0]} (tree size {size})", rep)
+        run.violation((f"[{cls}; listed as fixed, it is back] " if cls else "") + f"{vname}: {probs[0]} (tree size {size})", rep)
     if k1 and not reported:
         k1.sort(key=lambda t: (t[0], t[1]))
-        size, vname, c, d = k1[0]
+        size, vname, c, d = k1[0][:4]
         run.violation(f"K1: model and {vname} disagree ({len(k1)} cases); smallest: {d[0][:300]}; the property's own oracle "
                       f"passes on every generated input", dict(c.replay(), client=vname, differences=d), found_input=False)
